@@ -24,8 +24,8 @@ COQ_SRC = ROOT / "coq"
 BUILD = Path(os.environ.get("VERIF_BUILD", str(ROOT / "build")))
 COQ_BUILD = BUILD / "coq"
 REPO = Path(os.environ.get("VERIF_REPO", "/repo"))
-EVIDENCE = ROOT / "evidence"
-REPLAYS = ROOT / "replays"
+EVIDENCE = Path(os.environ.get("VERIF_EVIDENCE", str(ROOT / "evidence")))
+REPLAYS = Path(os.environ.get("VERIF_REPLAYS", str(ROOT / "replays")))
 KNOWN = ROOT / "known_findings.json"
 NPROC = int(os.environ.get("VERIF_JOBS", "16"))
 
